@@ -171,6 +171,11 @@ def gen_cases(rng, tier, scale):
            ('{{#each [{"a":1}] as |e|}}{{dump e.zz ../zz}}{{/each}}', None)]
     for i, (tpl, exp) in enumerate(DER):
         cases.append(rcase(f'der{i}', tpl, DATA, pre=['probes', 'esc 1'], partials={'p': '{{dump zz k=zz.y}}'}, entry=0, kind='exact', exp=exp, tags=['missing-in-derived-scope']))
+    # a helper that WRITES its result hands a subexpression caller a string, whatever the text looks like
+    for i, (warg, exp) in enumerate([('"123"', 'x313233'), ('123', 'x313233'), ('true', 'x74727565'), ('null', 'x'), ('"null"', 'x6e756c6c'), ('"\\"x\\""', 'x227822'),
+                                    ('[1,2]', 'x5b312c20325d'), ('"4.50"', 'x342e3530'), ('"{}"', 'x7b7d'), ('"abc"', 'x616263')]):
+        tpl = '{{*sethelper "echo" "w:"}}{{dump (echo %s)}}' % warg
+        cases.append(rcase(f'wr{i}', tpl, DATA, pre=['probes', 'esc 1'], entry=0, kind='exact', exp='dump(-:v:-:%s;;bti;-)' % exp, tags=['writing-helper-result-is-a-string']))
     for i, src in enumerate(NOT_JSON):
         for j, tpl in enumerate(['{{dump %s}}', '{{dump 1 k=%s}}', '{{#dump %s}}b{{/dump}}', '{{id (dump %s)}}']):
             cases.append(rcase(f'nj{i}_{j}', tpl % src, DATA, pre=['probes', 'esc 1'], entry=4, kind='notjson', form='expr', tags=['not-json-number']))
